@@ -786,15 +786,36 @@ theorem typeswitch_eq_spec_generated (mY mG : α → Bool) (cs : List (List α))
     typeSwitchY Generated.C05.facts.defaultSwap Generated.C05.facts.clauseChain mY cs = typeSwitch mG cs :=
   typeswitch_eq_spec _ (by rw [facts_tie]; rfl) (by rw [facts_tie]; rfl) mY mG cs hm
 
-/-- **type switch on an operand of non-empty interface type**: when every clause lists struct or
-    pointer types the interpreter takes the clause Go takes — for every declaration set, dynamic
-    value (nil included) and clause list, default clause anywhere -/
-theorem typeswitch_typed_concrete_correct (F : Facts) (hs : F.defaultSwap = false) (hc : F.clauseChain = .nextTest)
-    (D : Decls) (b : Bool) (dyn : Option Dyn) (cs : List (List TyRef))
-    (hcT : ∀ c ∈ cs, ∀ ty ∈ c, concreteTy D ty = true) :
-    typeSwitchY F.defaultSwap F.clauseChain (matchCaseY D true b dyn) cs = typeSwitchG D (dynT dyn) cs := by
+/-- **a type switch whose clauses list struct types, pointer types, `nil` or `interface{}` takes the
+    clause Go takes** — for every declaration set, every operand (of empty or non-empty interface
+    type, nil included, the value wrapped or stored raw), with or without a bound variable, every
+    clause list, default clause anywhere (F05-13 for `nil`, F05-15 repaired by 9f81224: `matchCase`) -/
+theorem typeswitch_plain_correct (F : Facts) (hs : F.defaultSwap = false) (hc : F.clauseChain = .nextTest)
+    (hm : F.caseUsesMatchCase = true)
+    (D : Decls) (ts b : Bool) (dyn : Option Dyn) (cs : List (List TyRef))
+    (hcT : ∀ c ∈ cs, ∀ ty ∈ c, plainTy D ty = true) :
+    typeSwitchY F.defaultSwap F.clauseChain (matchCaseY F D ts b dyn) cs = typeSwitchG D (dynT dyn) cs := by
   unfold typeSwitchG
-  exact typeswitch_eq_spec F hs hc _ _ cs (fun c hcm ty hty => matchCase_typed_concrete D b dyn ty (hcT c hcm ty hty))
+  exact typeswitch_eq_spec F hs hc _ _ cs (fun c hcm ty hty => matchCase_plain F hm D ts b dyn ty (hcT c hcm ty hty))
+
+/-- the same for the facts regenerated from the source -/
+theorem typeswitch_plain_correct_generated (D : Decls) (ts b : Bool) (dyn : Option Dyn) (cs : List (List TyRef))
+    (hcT : ∀ c ∈ cs, ∀ ty ∈ c, plainTy D ty = true) :
+    typeSwitchY Generated.C05.facts.defaultSwap Generated.C05.facts.clauseChain (matchCaseY Generated.C05.facts D ts b dyn) cs
+      = typeSwitchG D (dynT dyn) cs :=
+  typeswitch_plain_correct _ (by rw [facts_tie]; rfl) (by rw [facts_tie]; rfl) (by rw [facts_tie]; rfl) D ts b dyn cs hcT
+
+/-- **an interface clause type**: `matchCase` compares what `implements()` compares — the names in
+    `methods()` of the dynamic type and the pointer-receiver rule — on a value that carries its type
+    (wrapped); so the clause matches exactly when the value can be assigned to the interface type
+    under the interpreter's static rule (`implementsY`; against Go: `implements_complete`,
+    `implements_sound_partial`) -/
+theorem matchCase_iface_is_implements (F : Facts) (hC : F.caseUsesMatchCase = true) (hR : F.implementsChecksRecv = true)
+    (D : Decls) (ts b : Bool) (d : Dyn) (hw : d.wrapped = true) (t : Nat) (hi : isIfaceT D t = true)
+    (hne : (ifaceNamesY D (.named t)).isEmpty = false) :
+    matchCaseY F D ts b (some d) (.named t) = implementsY F D d.t d.ptr (ifaceNamesY D (.named t)) := by
+  unfold matchCaseY implementsY
+  simp [hC, matchCaseNewY, hi, hne, hw, hR]
 
 /-- non-vacuity: the expected facts satisfy the hypotheses, and the clause list of F05-16 (default
     clause first, both other clauses match) is decided as Go decides it -/
@@ -1352,20 +1373,35 @@ theorem typeassert_ambiguous_witness :
     classify EF ambIfaceDecls [.iface "i" (some 3) .nil, .tswitch "i" false [[.ptr 2], []]] = "tswitch-impossible-case" ∧
     namesResolved ambIfaceDecls 2 (tyMethods ambIfaceDecls (.named 3)) = false := by decide
 
-/-- type switches: on an operand of non-empty interface type neither an interface clause nor
-    `case nil` ever matches; on an `interface{}` operand holding a wrapped value every interface
-    clause matches in the binding form (a `W` value matches `case interface{ Inc() }`) -/
-theorem typeswitch_witnesses :
-    run .go EF wDecls [.var "v" 0 1, .iface "i" (some 2) (.addr "v"), .tswitch "i" false [[.named 3], []]]
-      = .ran [["case", "0"]] false ∧
-    run .yaegi EF wDecls [.var "v" 0 1, .iface "i" (some 2) (.addr "v"), .tswitch "i" false [[.named 3], []]]
-      = .ran [["case", "1"]] false ∧
-    run .go EF wDecls [.iface "i" (some 2) .nil, .tswitch "i" false [[.nil], []]] = .ran [["case", "0"]] false ∧
-    run .yaegi EF wDecls [.iface "i" (some 2) .nil, .tswitch "i" false [[.nil], []]] = .ran [["case", "1"]] false ∧
-    run .go EF wDecls [.var "v" 0 1, .iface "x" none (.var "v"), .tswitch "x" true [[.named 3], [.named 2], []]]
-      = .ran [["case", "1"]] false ∧
-    run .yaegi EF wDecls [.var "v" 0 1, .iface "x" none (.var "v"), .tswitch "x" true [[.named 3], [.named 2], []]]
-      = .ran [["case", "0"]] false := by decide
+/-- **regressions of F05-13, F05-14, F05-15** (their replay inputs): on an operand of non-empty interface
+    type an interface clause and `case nil` match as in Go; on an `interface{}` operand an interface
+    clause matches by method set (a `W` value does not match `case interface{ Inc() }`), a struct
+    clause matches a wrapped value in the binding form. With the three matchers of the code before
+    9f81224 (`caseUsesMatchCase := false`) the model still gives the old answers. -/
+example :
+    (let p := [Stmt.var "v" 0 1, .iface "i" (some 2) (.addr "v"), .tswitch "i" false [[.named 3], []]]
+     run .go EF wDecls p = .ran [["case", "0"]] false ∧ run .yaegi EF wDecls p = run .go EF wDecls p ∧
+     classify EF wDecls p = "in-domain" ∧
+     run .yaegi { EF with caseUsesMatchCase := false } wDecls p = .ran [["case", "1"]] false) ∧
+    (let p := [Stmt.iface "i" (some 2) .nil, .tswitch "i" false [[.nil], []]]
+     run .go EF wDecls p = .ran [["case", "0"]] false ∧ run .yaegi EF wDecls p = run .go EF wDecls p ∧
+     run .yaegi { EF with caseUsesMatchCase := false } wDecls p = .ran [["case", "1"]] false) ∧
+    (let p := [Stmt.var "v" 0 1, .iface "x" none (.var "v"), .tswitch "x" true [[.named 3], [.named 2], []]]
+     run .go EF wDecls p = .ran [["case", "1"]] false ∧ run .yaegi EF wDecls p = run .go EF wDecls p ∧
+     classify EF wDecls p = "in-domain" ∧
+     run .yaegi { EF with caseUsesMatchCase := false } wDecls p = .ran [["case", "0"]] false) ∧
+    (let p := [Stmt.var "v" 0 1, .iface "x" none (.var "v"), .tswitch "x" true [[.named 0], []]]
+     run .go EF wDecls p = .ran [["case", "0"]] false ∧ run .yaegi EF wDecls p = run .go EF wDecls p ∧
+     run .yaegi { EF with caseUsesMatchCase := false } wDecls p = .ran [["case", "1"]] false) ∧
+    EF.caseUsesMatchCase = true := by decide
+
+/-- **witness (F06 in a type switch)**: a value stored raw in `interface{}` — `&v` with `v` of type `V`,
+    whose pointer type has no method of its own — has no methods for `matchCase`: `case IG` (`Get`
+    promoted from the embedded `W`) does not match, Go takes it -/
+theorem typeswitch_unwrapped_witness :
+    run .go EF wDecls [.var "v" 1 1, .iface "x" none (.addr "v"), .tswitch "x" true [[.named 2], []]] = .ran [["case", "0"]] false ∧
+    run .yaegi EF wDecls [.var "v" 1 1, .iface "x" none (.addr "v"), .tswitch "x" true [[.named 2], []]] = .ran [["case", "1"]] false ∧
+    classify EF wDecls [.var "v" 1 1, .iface "x" none (.addr "v"), .tswitch "x" true [[.named 2], []]] = "tswitch-unwrapped-value" := by decide
 
 /-- in-domain programs of every form agree (non-vacuity of the classes' complement) -/
 example :
